@@ -17,11 +17,12 @@ VARS = ['x0', 'x1', 'x2', 'a', 'b']
 
 
 class Gen:
-    def __init__(self, rnd, big=False, maxprogs=3, stmts=(2, 7), spell=False):
+    def __init__(self, rnd, big=False, maxprogs=3, stmts=(2, 7), spell=False, looponly=False):
         self.r = rnd
         self.big = big
         self.maxprogs = maxprogs
         self.stmts_rng = stmts
+        self.looponly = looponly
         # identifier pools: mostly the plain one; sometimes names that differ only in case, or by a prefix / leading zero
         k = rnd.random()
         self.twins = k >= 0.7
@@ -55,6 +56,19 @@ class Gen:
         r = self.r
         for _ in range(n):
             k = r.random()
+            if self.looponly:
+                # neither WHILE nor GOTO: assignments, (nested) LOOPs that often assign their own bound, rarely STOP
+                if k < 0.55 or depth >= 3:
+                    out.append(['assign', r.choice(self.vars), self.val(progs)])
+                elif k < 0.97:
+                    v = r.choice(self.vars)
+                    body = self.stmts(progs, labels, depth + 1, r.randint(1, 3))
+                    if r.random() < 0.5:
+                        body.insert(r.randrange(len(body) + 1), ['assign', v, r.choice([('num', 0), ('inc', v, 1), ('inc', v, 2), ('dec', v, 1), ('num', 7)])])
+                    out.append(['loop', v, body])
+                else:
+                    out.append(['stop'])
+                continue
             if k < 0.4:
                 out.append(['assign', r.choice(self.vars), self.val(progs)])
             elif k < 0.52 and depth < 2:
@@ -230,7 +244,7 @@ def text_of_tokens(ts, rnd, p_nl=0.3):
     return ''.join(t + (('\n' if rnd.random() < p_nl else ' ')) for t in ts)
 
 
-def canonical(defs, main, rnd=None, alone=0.5, pv=None):
+def canonical(defs, main, rnd=None, alone=0.5, pv=None, loopfmt=None):
     """One statement per line.  Returns (text, L) with L mapping uid -> line, ('end',uid) -> line of
     the loop's END, ('lab',uid) -> line of a label that stands alone, ('pend',i) -> line of the
     END of program i, ('hdr', i) -> header line."""
@@ -256,6 +270,12 @@ def canonical(defs, main, rnd=None, alone=0.5, pv=None):
             L[st[-1]] = len(lines) + 1
             if st[0] == 'assign':
                 lines.append(pre + '%s := %s' % (st[1], pv(st[2])) + sep)
+            elif st[0] == 'loop' and loopfmt is not None and loopfmt(st):
+                # the loop is written through a user macro `NAME var { body }` that expands to a LOOP over a temporary
+                lines.append(pre + '%s %s {' % (loopfmt(st), st[1]))
+                ps(st[2], ind + 2)
+                L[('end', st[-1])] = len(lines) + 1
+                lines.append(' ' * ind + '}' + sep)
             elif st[0] == 'loop':
                 lines.append(pre + 'LOOP %s DO' % st[1])
                 ps(st[2], ind + 2)
